@@ -5,7 +5,7 @@ CONSTANTS
   Creds = {"right", "otherUser", "malformed", "empty"}
   BindRes = {"ra"}
   Kinds = {"message", "presence", "iq"}
-  Froms = {"absent", "own", "ownBare", "victim", "other"}
+  Froms = {"absent", "own", "ownBare", "victim", "other", "ownOtherRes", "ownSibling", "ownCase", "ownSlash", "ownPrefix", "ownDomain", "ownLookalike"}
   Tos = {"victimBare", "victimFull", "domain", "absent"}
   Stanzas <- MidStanzas
   MaxPending = 2
